@@ -32,8 +32,8 @@ Lemma alist_get_nodup {K A} `{EqDecision K} (l : list (K * A)) k a :
 Proof.
   induction l as [|[k' a'] l IH]; intros Hnd Hin; [by apply elem_of_nil in Hin|].
   cbn in Hnd. apply NoDup_cons in Hnd as [Hk' Hnd]. rewrite alist_get_cons.
-  apply elem_of_cons in Hin as [[= <- <-]|Hin]; [by rewrite decide_True|].
-  rewrite decide_False; [by apply IH|]. intros <-. apply Hk'.
+  apply elem_of_cons in Hin as [[= -> ->]|Hin]; [by rewrite decide_True|].
+  rewrite decide_False; [by apply IH|]. intros ->. apply Hk'.
   apply elem_of_list_fmap. by exists (k, a).
 Qed.
 Lemma alist_get_is_Some {K A} `{EqDecision K} (l : list (K * A)) k :
@@ -157,13 +157,13 @@ Lemma fden_step f u a k lo hi : alist_get tbl (absn u) = Some (k, lo, hi) → lo
   fden (S f) tbl u a = xorb (bool_decide (u < 0)%Z)
      (if a k then fden f tbl hi a else fden f tbl lo a).
 Proof.
-  intros He Hlo. cbn [fden]. rewrite He, decide_False by done.
+  intros He Hlo. cbn [fden]. rewrite He. rewrite (decide_False (P := lo = 0%Z)) by done.
   case_decide; case_bool_decide; try lia; by destruct (if a k then _ else _).
 Qed.
 Lemma fden_term f u a kT : alist_get tbl (absn u) = Some (kT, 0%Z, 0%Z) →
   fden (S f) tbl u a = negb (bool_decide (u < 0)%Z).
 Proof.
-  intros He. cbn [fden]. rewrite He, decide_True by done.
+  intros He. cbn [fden]. rewrite He. rewrite (decide_True (P := 0%Z = 0%Z)) by done.
   case_decide; case_bool_decide; try lia; done.
 Qed.
 
@@ -179,9 +179,9 @@ Proof.
     destruct (a k); apply IH; try done; lia.
 Qed.
 
-Lemma fden_neg f u a : u ≠ 0%Z → fden f tbl (- u) a = negb (fden f tbl u a).
+Lemma fden_neg f u a : u ≠ 0%Z → 0 < f → fden f tbl (- u) a = negb (fden f tbl u a).
 Proof.
-  intros Hu. destruct f as [|f]; [done|]. cbn [fden]. rewrite absn_neg.
+  intros Hu Hf. destruct f as [|f]; [lia|]. cbn [fden]. rewrite absn_neg.
   destruct (match alist_get tbl (absn u) with Some _ => _ | None => _ end);
     repeat case_decide; try lia; done.
 Qed.
@@ -245,7 +245,7 @@ Proof.
   rewrite Hi. cbn [of_opt]. rewrite (bind_ok _ _ s i s) by done.
   case_bool_decide as Eij; cbn [negb]; cycle 1.
   { intros [= <- <-]. exists umap. split_and!; try done. intros E. congruence. }
-  subst i.
+  symmetry in Eij. destruct Eij.
   destruct (child_lookup (S j) s umap lo j HL Hcl ltac:(lia)) as (p0&Hp0&Hvp0&Hlp0&HDp0).
   destruct (child_lookup (S j) s umap hi j HL Hch ltac:(lia)) as (q&Hq&Hvq&Hlq&HDq).
   rewrite (Zabs_pos lo Hlo), Hp0. cbn [of_opt]. rewrite (bind_ok _ _ s p0 s) by done.
@@ -258,7 +258,7 @@ Proof.
     - split_and!; [by apply valid_neg|by rewrite lvl_neg|].
       intros a fuel Hf. rewrite D_neg, (HDp0 a fuel Hf) by done.
       replace lo with (- Z.pos (absn lo))%Z at 2 by (unfold absn; lia).
-      by rewrite fden_neg.
+      rewrite fden_neg by first [done|lia]. done.
     - split_and!; try done. intros a fuel Hf. rewrite (HDp0 a fuel Hf).
       by replace (Z.pos (absn lo)) with lo by (unfold absn; lia). }
   destruct Hp as (Hvp&Hlp&HDp).
@@ -279,7 +279,7 @@ Proof.
         intros a fuel Hf. rewrite HDx. destruct fuel as [|fuel]; [lia|].
         rewrite (fden_step fuel (Z.pos u) (fassign a) k lo hi He Hlo).
         rewrite bool_decide_eq_false_2 by lia. rewrite xorb_false_l.
-        unfold fassign at 1. unfold o2nf. rewrite Hi. cbn [default].
+        assert (fassign a k = a j) as -> by (unfold fassign, o2nf; by rewrite Hi).
         rewrite (HDp a (S fuel) Hf), (HDq a (S fuel) Hf). rewrite <- Ehi.
         destruct Hcl as [Hvl Hll], Hch as [Hvh Hlh].
         destruct (a j); apply fden_fuel; try done; lia.
@@ -379,13 +379,16 @@ Proof.
     destruct (li_sound _ _ _ HL _ _ Hx) as (_&Hvx&_&HDx).
     destruct IH as (rs&Ers&Hrs); [intros; apply Hl; by right|].
     exists ((if decide (u < 0)%Z then (- x)%Z else x) :: rs). split.
-    + cbn [mapM]. unfold dddmp_map_root at 1. rewrite (Zabs_pos u Hu0), Hx.
-      cbn [of_opt bind ret]. rewrite Ers. done.
+    + cbn [mapM].
+      assert (Hroot : dddmp_map_root umap u s =
+                (Ok (if decide (u < 0)%Z then (- x)%Z else x), s)).
+      { unfold dddmp_map_root. rewrite (Zabs_pos u Hu0), Hx. done. }
+      rewrite (bind_ok _ _ _ _ _ Hroot), (bind_ok _ _ _ _ _ Ers). done.
     + constructor; [|done]. destruct (decide (u < 0)%Z) as [Hneg|Hpos].
       * split; [by apply valid_neg|]. intros a fuel Hf.
         rewrite D_neg, (HDx a fuel Hf) by done.
         replace u with (- Z.pos (absn u))%Z at 2 by (unfold absn; lia).
-        by rewrite fden_neg.
+        rewrite fden_neg by first [done|lia]. done.
       * split; [done|]. intros a fuel Hf. rewrite (HDx a fuel Hf).
         by replace (Z.pos (absn u)) with u by (unfold absn; lia).
 Qed.
@@ -401,7 +404,9 @@ Theorem dddmp_rebuild_correct rootids s0 r s' :
        ∀ a fuel, n < fuel → D s' x a = fden fuel tbl u (fassign a)) rootids rs.
 Proof.
   intros HI Hoff Hnv Hroots. unfold dddmp_rebuild.
-  destruct (foldM _ _ (reverse (seq 0 n)) s0) as [r1 s1] eqn:E1.
+  destruct (foldM (fun (umap : gmap Z Z) j => foldM (dddmp_node_step o2n j) umap tbl)
+              ({[ (-1)%Z := (-1)%Z; 1%Z := 1%Z ]} : gmap Z Z) (reverse (seq 0 n)) s0)
+    as [r1 s1] eqn:E1.
   pose proof E1 as E1'.
   apply dddmp_levels_spec in E1' as (umap&->&HL&He); [|done|by apply LInv_start].
   rewrite (bind_ok _ _ _ _ _ E1).
